@@ -898,11 +898,15 @@ func main() {
 	c.Rule += " " + "Programs may return no context at all, and may shrink their requirements to nothing."
 	c.Rule += " " + "A third of the cases with composed kinds behind the XR controller's cache (reconciler built through the real CompositeReconcilerOptions)."
 	c.Rule += " " + "One reconcile during which reads of the composed kind answer NoKindMatch: a function that is called all the same receives every existing composed resource."
+	c.Rule += " " + "Interleave part: two XRs reconciled by one reconciler, the first parked before each of its API calls while the second completes; per XR the surfaced results (order, none dropped, none foreign), custom conditions and composed resources equal the sequential run."
 	c.Assumptions = []string{"programs are test inputs executed by both sides; the contract (threading, rounds, observed construction) is written from the property statement", "the first reconcile of an XR is not judged (in-memory XR differs from the stored one)"}
 	c.Floor = 100
 	n := c.N(600, 12000)
 	if os.Getenv("VERIF_RACE_LOG") != "" && c.Thorough() {
 		n = 3000 // the thorough tier is built with the race detector (about 5x slower)
+	}
+	if err := kit.Try(func() { runInterleave(c) }); err != nil {
+		c.Violate("panic:interleave", "interleave", err.Error(), nil)
 	}
 	if err := kit.Try(func() { stress(c) }); err != nil {
 		c.Violate("panic:stress", "stress", err.Error(), nil)
